@@ -215,6 +215,17 @@ func c12Probes(o drv.Opts, baseNames []string) map[string]func() ([]cid.Cid, drv
 			p["undup-root"] = func() ([]cid.Cid, drv.Opts) { return with(last, fresh), o }
 		}
 	}
+	// a list with the same members as the file's, in other multiplicities ([a,a,b] -> [a,b,b])
+	for i := range base {
+		for j := i + 1; j < len(base); j++ {
+			for k := range base {
+				if base[i].Equals(base[j]) && !base[k].Equals(base[i]) {
+					j, k := j, k
+					p["shift-multiplicity"] = func() ([]cid.Cid, drv.Opts) { return with(j, baseNames[k]), o }
+				}
+			}
+		}
+	}
 	for i, n := range baseNames {
 		if n == "a" {
 			i := i
@@ -245,7 +256,7 @@ func c12Probes(o drv.Opts, baseNames []string) map[string]func() ([]cid.Cid, drv
 	return p
 }
 
-var c12ProbeOrder = []string{"other-root", "extra-root", "fewer-roots", "no-roots", "dup-root", "undup-root", "codec-root", "cidv0-root", "wrong-version", "padding-plus", "padding-plus8", "padding-plus64", "padding-minus", "padding-zero"}
+var c12ProbeOrder = []string{"other-root", "extra-root", "fewer-roots", "no-roots", "dup-root", "undup-root", "shift-multiplicity", "codec-root", "cidv0-root", "wrong-version", "padding-plus", "padding-plus8", "padding-plus64", "padding-minus", "padding-zero"}
 
 // c12Perm returns the k-th rearrangement of the roots used on reopen (a permutation is not a mismatch).
 func c12Perm(r []cid.Cid, k int) []cid.Cid {
@@ -484,7 +495,7 @@ var c12MoreCfgs = []drv.Opts{
 }
 
 var c12Fronts = []string{"bs", "st", "bsf"}
-var c12Bases = []string{"aa", "a", "empty", "r4"}
+var c12Bases = []string{"aa", "a", "empty", "r4", "aab"}
 
 func genC12(tier string, emit func(any)) {
 	depth := 6
@@ -535,8 +546,8 @@ func init() {
 		Run:    runC12,
 		Decode: kit.DecodeAs[C12Case],
 		Rule: "every sequence of the depth bound over {Put a, Put b, Put a', Put identity, Discard+reopen, Finalize+reopen} followed by Finalize, x 7 option configurations (7 more one level less deep) x {blockstore.OpenReadWrite, storage.OpenReadableWritable, blockstore.OpenReadWriteFile over ONE caller-owned handle kept across all sessions}; " +
-			"the same over section shapes {128-byte and 16 KiB sections, empty data, CIDv0, PutMany batch} and over files created with root sets {a,a}, {a}, {}, {a,b,c,s}; differential oracle: bytes of the uninterrupted session with the same puts, after the final Finalize AND after every intermediate Finalize; every block put is read back from the resumed session; " +
-			"on every distinct intermediate file image every single-field mismatch (other/extra/fewer/no roots, a repeated root for a distinct one and vice versa, same digest under another codec / as CIDv0, wrong version, data padding +1/+8/+64/-1/to 0) is tried on a copy and must be refused leaving the bytes unchanged; reopen roots cycle through original order, reversed, rotated (nil for no roots); non-trivial = sequence with >=1 reopen and >=1 put, or a mismatch probe on a distinct image",
+			"the same over section shapes {128-byte and 16 KiB sections, empty data, CIDv0, PutMany batch} and over files created with root sets {a,a}, {a}, {}, {a,b,c,s}, {a,a,b}; differential oracle: bytes of the uninterrupted session with the same puts, after the final Finalize AND after every intermediate Finalize; every block put is read back from the resumed session; " +
+			"on every distinct intermediate file image every single-field mismatch (other/extra/fewer/no roots, a repeated root for a distinct one and vice versa, the same members in other multiplicities, same digest under another codec / as CIDv0, wrong version, data padding +1/+8/+64/-1/to 0) is tried on a copy and must be refused leaving the bytes unchanged; reopen roots cycle through original order, reversed, rotated (nil for no roots); non-trivial = sequence with >=1 reopen and >=1 put, or a mismatch probe on a distinct image",
 		Bound: func(tier string) map[string]any {
 			d := 6
 			if tier == "thorough" {
